@@ -17,5 +17,10 @@ MCKProgs ==
     << << WC(10, 3, "past"), WC(9, 3, "zero") >>, << WC(9, 2, "d1") >> >>,
     << << >>, << >> >> }
 
+(* small space for the liveness check (WCBoundedWait under fairness of the control callers only) *)
+LWProgs == { << O("NW", 1, 0, "zero"), O("WR", 0, 1, "zero"), O("CL", 0, 0, "zero") >>, << O("WM", 8, 2, "zero") >> }
+LKProgs == { << << WC(9, 1, "d1") >>, << WC(8, 2, "zero") >> >>, << << WC(9, 0, "d1"), WC(10, 0, "d1") >>, << WC(9, 1, "d1") >> >> }
+LRProgs == { << >>, << WC(10, 2, "auto") >> }
+
 MCRProgs == { << >>, << WC(10, 2, "auto") >>, << WC(10, 1, "auto"), WC(8, 2, "auto") >> }
 =============================================================================
